@@ -3,7 +3,7 @@ from collections import defaultdict
 
 from mirlib import facts, flow, ir, symx
 from mirlib.pat import ANY, ADT, C, CLOS, F, IDX, K, OP, P, TUP, V, match
-from rules import kernel, semantics, shared
+from rules import deps, kernel, semantics, shared
 
 EXPLANATION = """
 Decided: C15.A-arms (App::run: every library semantics call is controlled - nearest controlling branch conditions on
@@ -15,7 +15,9 @@ only at exhaustion), C15.P-order (within an arm no CFG path from a COMPLETE- or 
 call, nor from a STABLE-class call to a COMPLETE-class call), C15.Y-clap (for every argument id the value type of an
 explicit value_parser - normalised <P as TypedValueParser>::Value - equals the type requested by remove_one/get_one for
 the same id), S.P-parse (malformed input: exit through panic before any print), C08.A-alphabet (the default library mode
-must accept every label the parser accepts), C10.F-print (T/F/u and the statement's own name)."""
+must accept every label the parser accepts), C10.F-print (T/F/u and the statement's own name), and - since the printed sets are the
+library's answers - the complete rule suites of C01-C05 including their dependency suites (rules/deps.py), evaluated for the library
+configuration the binary links (quick: default features; thorough: the three counting configurations)."""
 NOT_DECIDED = "stdout equals the definitional sets (needs C01-C05 behaviourally); behaviour for flag/mode combinations the documentation marks unsupported; clap's runtime beyond definition/access typing."
 TECHNIQUE = "static analysis: control-dependence (nearest controlling flag conditions) and reachability on App::run's CFG, provenance of printed values, resolved generic types of clap definitions vs accesses"
 
@@ -281,3 +283,5 @@ def check(ctx):
     lib = ctx.load(facts.Config("lib"))
     C08.A_alphabet(ctx, lib)
     C10.F_print(ctx, lib)
+    # 'prints exactly the interpretations the definitions prescribe': the library-level suites of every semantics the CLI offers
+    deps.library_semantics(ctx, [facts.Config("lib")] if ctx.tier == "quick" else facts.LIB_QUICK)
